@@ -11,6 +11,7 @@ capture / split / splitdown over every combination of cell contents and argument
 and fromcolumns(columns(t)).  Oracles: mc/refs/reshape.py (no petl imports).
 """
 import itertools
+import re
 
 import petl as etl
 
@@ -43,7 +44,10 @@ RULE = ('melt/recast: all rectangular tables, w in {2,3} x every permutation of 
         'and by str(name) where unambiguous), transpose/transpose^2 and flatten (w<=3), the two untouched fields '
         'of unpack/unpackdict/capture/split/splitdown (<= 1 row), recast with int / float+bool variable values, '
         'and melt(pivot(t)) / recast(melt(pivot(t))) (pivot header = f2 values); header and cells compared '
-        'type-faithfully. '
+        'type-faithfully. REGEX FLAGS: split / splitdown / capture with flags in {IGNORECASE, VERBOSE, both, 0} '
+        'and patterns whose separators / groups only match under the flag, flags by keyword and positionally, '
+        'function and method (etl.wrap) syntax, x maxsplit x include_original x fill, on every table <= 2 rows '
+        'over cells with lower-/upper-case and spaced separators; oracle re.compile(pattern, flags). '
         'states = distinct (table, call form) points. Non-trivial: round trips whose table is not already in '
         'the output arrangement (rows out of key order or variable fields out of name order); transposes with '
         'w>=2 and n>=1; unflatten with padding or >= 2 rows; pivots with an empty cell or a cell aggregating >= 2 '
@@ -604,6 +608,71 @@ def evaluate(case):
         st[4] = ('split', fi, tuple(r[fi] for r in t[1:]))
         return fails, st
 
+    if form == 'regex_flags':
+        # non-default regex flags, by keyword and positionally, function and method syntax; the
+        # separators / groups only match under the flag
+        fi = case['fi']
+        hdr = t[0]
+        w = etl.wrap(t)
+        nontriv = False
+        for field in (hdr[fi], fi):
+            for pattern, flags in (('x', re.IGNORECASE), (' x ', re.VERBOSE), (' X ', re.IGNORECASE | re.VERBOSE),
+                                   ('x', 0)):
+                F = int(flags)
+                for maxsplit in (0, 1):
+                    exp = R.splitdown(t, fi, pattern, maxsplit, flags=F)
+                    calls = [('splitdown(flags=)', lambda: etl.splitdown(t, field, pattern, maxsplit=maxsplit, flags=F)),
+                             ('splitdown(positional flags)', lambda: etl.splitdown(t, field, pattern, maxsplit, F)),
+                             ('splitdown(flags=)', lambda: w.splitdown(field, pattern, maxsplit=maxsplit, flags=F)),
+                             ('splitdown(positional flags)', lambda: w.splitdown(field, pattern, maxsplit, F))]
+                    for lab, fn in calls:
+                        pt(run(fn), exp, lab, 'splitdown(t, %r, %r, maxsplit=%d, flags=%d)' % (field, pattern, maxsplit, F))
+                    if F and not same_table(exp, R.splitdown(t, fi, pattern, maxsplit, flags=0)):
+                        nontriv = True
+                    for inc in (False, True):
+                        exp = R.split(t, fi, pattern, None, inc, maxsplit, flags=F)
+                        calls = [('split(flags=)', lambda: etl.split(t, field, pattern, include_original=inc,
+                                                                    maxsplit=maxsplit, flags=F)),
+                                 ('split(positional flags)', lambda: etl.split(t, field, pattern, None, inc, maxsplit, F)),
+                                 ('split(flags=)', lambda: w.split(field, pattern, include_original=inc,
+                                                                  maxsplit=maxsplit, flags=F)),
+                                 ('split(positional flags)', lambda: w.split(field, pattern, None, inc, maxsplit, F))]
+                        for lab, fn in calls:
+                            pt(run(fn), exp, lab, 'split(t, %r, %r, include_original=%r, maxsplit=%d, flags=%d)'
+                               % (field, pattern, inc, maxsplit, F))
+            for pattern, flags in (('([a-w]+)([0-9]+)', re.IGNORECASE), (' ( [a-w]+ ) ( [0-9]+ ) ', re.VERBOSE),
+                                   (' ( [A-W]+ ) ( [0-9]+ ) ', re.IGNORECASE | re.VERBOSE), ('([a-w]+)([0-9]+)', 0)):
+                F = int(flags)
+                for inc in (False, True):
+                    for fill in (None, ('F1', 'F2')):
+                        exp, raises = R.capture(t, fi, pattern, None, inc, fill, flags=F)
+                        calls = [('capture(flags=)', lambda: etl.capture(t, field, pattern, include_original=inc,
+                                                                        flags=F, fill=fill)),
+                                 ('capture(positional flags)', lambda: etl.capture(t, field, pattern, None, inc, F, fill)),
+                                 ('capture(flags=)', lambda: w.capture(field, pattern, include_original=inc, flags=F,
+                                                                      fill=fill)),
+                                 ('capture(positional flags)', lambda: w.capture(field, pattern, None, inc, F, fill))]
+                        for lab, fn in calls:
+                            res = run(fn)
+                            what = 'capture(t, %r, %r, include_original=%r, flags=%d, fill=%r)' % (field, pattern, inc, F, fill)
+                            st[0] += 1
+                            st[1] += 1
+                            st[2] += 1
+                            if raises:
+                                if res[0] == 'ok':
+                                    fails.add('%s | no error on a non-matching value' % lab, 'an exception', res[1], what)
+                                elif not same_table(res[3], exp):
+                                    fails.add('%s | raises %s' % (lab, res[1]), exp,
+                                              {'raised': res[1], 'text': res[2], 'delivered_before': res[3]}, what)
+                            else:
+                                compare(fails, lab, res, exp, what)
+                        if F and fill is not None and not same_table(exp, R.capture(t, fi, pattern, None, inc, fill, 0)[0]):
+                            nontriv = True
+        if nontriv:
+            st[3] += 1
+        st[4] = ('regex_flags', fi, tuple(r[fi] for r in t[1:]))
+        return fails, st
+
     if form == 'dicts':
         hdr = list(t[0])
         n = len(t) - 1
@@ -746,6 +815,8 @@ def items(tier, seed):
         for first in range(len(NAMEPOOL)):
             out.append(('melt-names', w, first))
     out.append(('names-transpose',))
+    for fi in range(3):
+        out.append(('regex-flags', fi))
     for fi in range(3):
         for fam in ('unpack', 'unpackdict', 'capture', 'split'):
             out.append((fam + '-names', fi))
@@ -892,6 +963,20 @@ def run_item(item, acc):
                             rows.append(tuple(row))
                         _do(acc, {'form': 'melt_names', 'table': rows, 'key': list(K)}, 'melt-fieldnames')
         return
+    if fam == 'regex-flags':
+        fi = item[1]
+        h = ['id', 'z']
+        h.insert(fi, 'u')
+        cells = ['pxq1', 'pXq2', 'p x q', 'PXQX3']
+        for n in range(0, 3):
+            for combo in itertools.product(cells, repeat=n):
+                rows = [tuple(h)]
+                for i, c in enumerate(combo):
+                    row = [tag(i, 0), tag(i, 2)]
+                    row.insert(fi, c)
+                    rows.append(tuple(row))
+                _do(acc, {'form': 'regex_flags', 'table': rows, 'fi': fi}, 'regex-flags')
+        return
     if fam == 'names-transpose':
         for w in (1, 2, 3):
             for names in itertools.permutations(NAMEPOOL, w):
@@ -1025,7 +1110,7 @@ def vacuity(cov, tier):
     for k in ('melt/recast', 'recast', 'transpose', 'flatten/unflatten', 'flatten-ragged', 'unflatten', 'pivot',
               'unpack', 'unpackdict', 'capture', 'split/splitdown', 'dicts/columns', 'melt-fieldnames',
               'transpose-fieldnames', 'unpack-fieldnames', 'unpackdict-fieldnames', 'capture-fieldnames',
-              'split/splitdown-fieldnames'):
+              'split/splitdown-fieldnames', 'regex-flags'):
         if not c.get('op:' + k):
             probs.append('no evaluation of ' + k)
         elif not c.get('nontrivial:' + k):
